@@ -277,16 +277,16 @@ func c18SynthGraph(r *Rng, meta bool, unitSafe bool) (*graph.Graph, *graph.DotAt
 		}
 		switch r.Intn(4) {
 		case 0:
-			info.File = c18File(r, false)
+			info.File = c18File(r, meta)
 			info.Lineno = r.Intn(90)
 			if r.P(1, 3) {
 				info.Columnno = r.Intn(9)
 			}
 		case 1:
-			info.File = c18File(r, false)
+			info.File = c18File(r, meta)
 		case 2:
 			if info.Name == "" || r.P(1, 2) {
-				info.Objfile = "/bin/" + c18Str(r, false)
+				info.Objfile = "/bin/" + c18Name(r, meta)
 			}
 		}
 		if r.P(1, 4) {
@@ -541,22 +541,23 @@ func runC18(c *Ctx) {
 		nt := len(g.Nodes) > 0
 		c.Case(gen, in, obs, nt, append(tags, "op:dot")...)
 	}
-	// always-generated witnesses of the recorded findings
+	// the witnesses of the repaired findings F29 (unit in formatted values) and F30 (file name in the
+	// node label) are still always generated: they must be well-formed now
 	{
 		g, a, cfg := c18Witness("f", "main.go")
 		cfg.FormatValue = func(v int64) string { return fmt.Sprintf("%da\"b", v) }
-		dotCase("finding-F25", g, a, cfg)
+		dotCase("fixed-F29", g, a, cfg)
 		g, a, cfg = c18Witness("f", "di\"r/fi\"le.go")
-		dotCase("finding-F26", g, a, cfg)
+		dotCase("fixed-F30", g, a, cfg)
 	}
 	for i := 0; i < c.Budget(450, 6000); i++ {
 		meta := !r.P(1, 5)
-		g, a, cfg := c18SynthGraph(r, meta, !r.P(1, 25))
+		g, a, cfg := c18SynthGraph(r, meta, !r.P(1, 3))
 		dotCase("dot-synth", g, a, cfg)
 	}
 	grans := []string{"functions", "lines", "files", "addresses", "filefunctions"}
 	for i := 0; i < c.Budget(350, 5000); i++ {
-		po := c18POpts{meta: !r.P(1, 5), fileMeta: r.P(1, 25), unitMeta: r.P(1, 25), diff: r.P(1, 3)}
+		po := c18POpts{meta: !r.P(1, 5), fileMeta: r.P(1, 3), unitMeta: r.P(1, 3), diff: r.P(1, 3)}
 		p := c18Profile(r, po)
 		ro := c18ROpts{callTree: r.P(1, 3), dropNeg: r.P(1, 4), trim: r.P(1, 3), gran: PickS(r, grans), nodeCount: 1 + r.Intn(3)}
 		if r.P(1, 2) {
